@@ -26,8 +26,10 @@ external("codemodder.context.CodemodExecutionContext",
                  "max_workers": "Opaque"},
          returns="CodemodExecutionContext", exsures=[("MisconfiguredAIClient", None)], pure=True,
          note="context constructor: raises MisconfiguredAIClient from the AI-client set-up (verified below), otherwise total")
-external("codemodder.context.CodemodExecutionContext.find_and_fix_paths", params={"self": "CodemodExecutionContext"}, returns="list[Opaque]")
-external("codemodder.context.CodemodExecutionContext.files_to_analyze", params={"self": "CodemodExecutionContext"}, returns="list[Opaque]")
+external("codemodder.context.CodemodExecutionContext.find_and_fix_paths", params={"self": "CodemodExecutionContext"}, returns="list[Opaque]",
+         functional=True, reads=[], note="cached property: one list per context (match_files over the files of the target: bounded stand-in in C05)")
+external("codemodder.context.CodemodExecutionContext.files_to_analyze", params={"self": "CodemodExecutionContext"}, returns="list[Opaque]",
+         functional=True, reads=[], note="cached property: one list per context (files_for_directory: regular non-symlink files of the target)")
 external("codemodder.context.CodemodExecutionContext.included_paths", params={"self": "CodemodExecutionContext"}, returns="list[str]")
 external("codemodder.codemodder.find_semgrep_results", params={"context": "CodemodExecutionContext", "codemods": "list[BaseCodemod]", "files_to_analyze": "Opaque"},
          returns="ResultSet", note="semgrep pre-filter (semgrep binary absent offline); total here - an escaping exception ends the process with status 1 (outside the property)")
